@@ -237,6 +237,15 @@ Fixpoint rpc_values (names : list nat) (args : list value) (kw : list (nat * val
           end) :: rpc_values names' args kw (S n)
   end.
 
+(* what the transport sees of an rpc call: always sent; parameters whose value
+   is None are left out of the request (Binding.mkparam returns None) *)
+Inductive cres := CSent | CErr (r : res).
+
+Definition rpc_outcome (names : list nat) (args : list value) (kw : list (nat * value))
+  : cres * list (nat * value) :=
+  (CSent, filter (fun x => match snd x with Some _ => true | None => false end)
+                 (rpc_values names args kw 0)).
+
 (* ------------------------------------------------------------------ *)
 (* Part 2: the specification                                           *)
 (* ------------------------------------------------------------------ *)
@@ -411,7 +420,6 @@ Definition parse_spec_ok (c : pcase) : bool :=
 
 (* a call of an operation of a real client (document/literal wrapped): the
    observation is the TypeError class or "request built" *)
-Inductive cres := CSent | CErr (r : res).
 
 Record ccase := mkCC {
   cc_extra : bool;
@@ -439,3 +447,20 @@ Definition client_spec_ok (c : ccase) : bool :=
      | CErr r => negb (is_ok r)
                  && spec_res_ok (cc_extra c) (cc_tree c) (cc_args c) (cc_kw c) r
      end.
+
+(* a call through an rpc binding that was sent: the observation is the list of
+   (name, text) of the children of the request's method element *)
+Record rcase := mkRC {
+  rc_names : list nat;
+  rc_args : list value;
+  rc_kw : list (nat * value);
+  rc_sent : list (nat * value)
+}.
+
+Definition rpc_agrees (c : rcase) : bool :=
+  list_eqb (fun x y => Nat.eqb (fst x) (fst y) && value_eqb (snd x) (snd y))
+           (snd (rpc_outcome (rc_names c) (rc_args c) (rc_kw c))) (rc_sent c).
+
+(* the reasons for refusing a call that do not depend on the nesting *)
+Definition must_reject_flat (ns : list nat) (args : list value) (kw : list (nat * value)) : bool :=
+  unknown_kw ns kw || duplicate_kw ns args kw || surplus ns args.
